@@ -34,7 +34,7 @@ def _intersect_with_children(x, y, width, height, positions):
     return False
 
 
-def _get_line(line, lines, side):
+def _get_line(line, lines, side, from_end=False):
     span, number, ident = line
     if ident and span is None and number is None:
         for coord, line in enumerate(lines):
@@ -44,7 +44,11 @@ def _get_line(line, lines, side):
             number = 1
     if number is not None and span is None:
         if ident is None:
-            coord = number - 1
+            if from_end and number < 0:
+                # Negative numbers count from the end of the explicit grid.
+                coord = len(lines) + number
+            else:
+                coord = number - 1
         else:
             step = 1 if number > 0 else -1
             for coord, line in enumerate(lines[::step]):
@@ -62,13 +66,15 @@ def _get_line(line, lines, side):
     return span, number, ident, coord
 
 
-def _get_placement(start, end, lines):
+def _get_placement(start, end, lines, from_end=False):
     # Input coordinates are 1-indexed, returned coordinates are 0-indexed.
+    # Negative input coordinates given by grid-placement properties are counted
+    # from the end of the explicit grid when from_end is set.
     if start == 'auto' or start[0] == 'span':
         if end == 'auto' or end[0] == 'span':
             return
     if start != 'auto':
-        span, number, ident, coord = _get_line(start, lines, 'start')
+        span, number, ident, coord = _get_line(start, lines, 'start', from_end)
         if span is not None:
             size = number or 1
             span_ident = ident
@@ -76,7 +82,7 @@ def _get_placement(start, end, lines):
         size = 1
         span_ident = coord = None
     if end != 'auto':
-        span, number, ident, coord_end = _get_line(end, lines, 'end')
+        span, number, ident, coord_end = _get_line(end, lines, 'end', from_end)
         if span is not None:
             size = span_number = number or 1
             span_ident = ident
@@ -668,8 +674,9 @@ def grid_layout(context, box, bottom_space, skip_stack, containing_block,
         row_end = child.style['grid_row_end']
 
         column_placement = _get_placement(
-            column_start, column_end, columns[::2])
-        row_placement = _get_placement(row_start, row_end, rows[::2])
+            column_start, column_end, columns[::2], from_end=True)
+        row_placement = _get_placement(
+            row_start, row_end, rows[::2], from_end=True)
 
         if column_placement and row_placement:
             x, width = column_placement
@@ -683,7 +690,8 @@ def grid_layout(context, box, bottom_space, skip_stack, containing_block,
             continue
         first_start = child.style[f'grid_{first_flow}_start']
         first_end = child.style[f'grid_{first_flow}_end']
-        first_placement = _get_placement(first_start, first_end, first_tracks[::2])
+        first_placement = _get_placement(
+            first_start, first_end, first_tracks[::2], from_end=True)
         if not first_placement:
             continue
         second_start = child.style[f'grid_{second_flow}_start']
@@ -718,7 +726,7 @@ def grid_layout(context, box, bottom_space, skip_stack, containing_block,
             second_start = child.style[f'grid_{second_flow}_start']
             second_end = child.style[f'grid_{second_flow}_end']
             second_placement = _get_placement(
-                second_start, second_end, second_tracks[::2])
+                second_start, second_end, second_tracks[::2], from_end=True)
             remaining_grid_items.append(child)
             if second_placement:
                 i, size = second_placement
@@ -758,7 +766,7 @@ def grid_layout(context, box, bottom_space, skip_stack, containing_block,
             second_start = child.style[f'grid_{second_flow}_start']
             second_end = child.style[f'grid_{second_flow}_end']
             second_placement = _get_placement(
-                second_start, second_end, second_tracks[::2])
+                second_start, second_end, second_tracks[::2], from_end=True)
             if second_placement:
                 # 1. Set the row (resp. column) position of the cursor.
                 cursor_first = implicit_first_1
@@ -868,7 +876,7 @@ def grid_layout(context, box, bottom_space, skip_stack, containing_block,
             second_start = child.style[f'grid_{second_flow}_start']
             second_end = child.style[f'grid_{second_flow}_end']
             second_placement = _get_placement(
-                second_start, second_end, second_tracks[::2])
+                second_start, second_end, second_tracks[::2], from_end=True)
             if second_placement:
                 # 1. Set the column (resp. row) position of the cursor.
                 second_i, second_size = second_placement
